@@ -143,9 +143,9 @@ def loop_table(wd):
 
 
 def resolve_unwindset(q, wd):
-    """Entries: 'loopid:N' | '@file.c:LINE:N' (loop at that source line) | 'func.*:N' (all loops of func;
+    """Entries: 'loopid:N' | '@file.c:LINE:N' (loop at that source line) | '~file.c~text:N' (loop on a line containing text) | 'func.*:N' (all loops of func;
     also matches the file-local mangled name) | recursion bounds 'func:N' pass through."""
-    if not any(e.startswith("@") or ".*:" in e or re.match(r"^[A-Za-z_]\w*:\d+$", e) for e in q.unwindset):
+    if not any(e.startswith("@") or e.startswith("~") or ".*:" in e or re.match(r"^[A-Za-z_]\w*:\d+$", e) for e in q.unwindset):
         return list(q.unwindset)
     loops = loop_table(wd)
     rc, fout, err, to, _ = sh(["goto-instrument", "--list-goto-functions", os.path.join(wd, "q.goto")], timeout=120)
@@ -159,6 +159,13 @@ def resolve_unwindset(q, wd):
                 out.append(e)
             else:
                 out += ["%s:%s" % (f, n) for f in funcs if f.startswith("__CPROVER_file_local_") and f.endswith("_c_" + fn)]
+        elif e.startswith("~"):
+            # '~file.c~source text:N': the loop(s) whose head is on a line of the current /repo/src/file.c containing that text
+            f, rest = e[1:].split("~", 1)
+            text, n = rest.rsplit(":", 1)
+            lines = [i + 1 for i, l in enumerate(open(os.path.join(REPO, "src", f)).read().split("\n")) if text in l]
+            hit = [l for l in loops if l[1] == f and l[2] in lines]
+            out += ["%s:%s" % (l[0], n) for l in hit]      # no hit (the loop was rewritten): the global bound and its unwinding assertion apply
         elif e.startswith("@"):
             f, line, n = e[1:].rsplit(":", 2)
             hit = [l for l in loops if l[1] == f and l[2] == int(line)]
@@ -385,7 +392,12 @@ def native_replay(q, script, rdir, kf_excluded, hang_only=False):
         return "assume-violated", out[-2000:]
     if rc in (78, 79):
         return "script-error", out[-2000:]
-    return "confirmed", (out + err)[-3000:]
+    txt = out + err
+    if rc in (126, 127) or "error while loading shared libraries" in txt:
+        return "build-failed", txt[-2000:]
+    if not (rc < 0 or any(m in txt for m in ("REPLAY-ASSERT-FAILED", "AddressSanitizer", "LeakSanitizer", "runtime error:", "Assertion"))):
+        return "script-error", txt[-2000:]
+    return "confirmed", txt[-3000:]
 
 
 def run_query(q, tier, workroot, kf_open, keep=False):
@@ -463,6 +475,10 @@ def run_query(q, tier, workroot, kf_open, keep=False):
             res["kf_excluded"] = kf_excl
             return res
         # candidate violation -> trace -> replay
+        nobody = [r.get("description", "") for r in fails if (r.get("description") or "").startswith("no body for callee")]
+        if nobody:
+            res.update(verdict="build-error", detail="harness calls a function the build does not define: " + "; ".join(nobody[:3]))
+            return res
         r0 = fails[0]
         res["failed"] = [{"property": r.get("property"), "description": r.get("description"),
                           "location": (r.get("sourceLocation") or {})} for r in fails[:20]]
